@@ -213,6 +213,63 @@ func checkC04(c *Case, s *Stats) error {
 			return err
 		}
 		s.class("interleaved_iterators_checked")
+		// a scan started from inside another scan's callback (same goroutine)
+		outer, inner := scans[len(scans)/3], scans[(2*len(scans))/3]
+		err = guard("nested scans", func() error {
+			fo, to := m.scan(string(outer.Start), outer.InclStart, false, "", false)
+			if to-fo > 10 {
+				to = fo + 10
+			}
+			fi, ti := m.scan(string(inner.Start), inner.InclStart, false, "", false)
+			n := 0
+			var verr error
+			st.ScanFrom(string(outer.Start), outer.InclStart, true, func(k, v []byte) bool {
+				if fo+n >= to {
+					return false
+				}
+				if string(k) != m.Keys[fo+n] {
+					verr = viol("nested-scan", "outer scan (start %s) entry %d is %s, want %s", q(string(outer.Start)), n, q(string(k)), q(m.Keys[fo+n]))
+					return false
+				}
+				held := k
+				// the nested scan, run to at most 5 entries
+				j := 0
+				st.ScanFrom(string(inner.Start), inner.InclStart, false, func(k2, v2 []byte) bool {
+					if fi+j < ti && string(k2) != m.Keys[fi+j] && verr == nil {
+						verr = viol("nested-scan", "inner scan (start %s) entry %d is %s, want %s", q(string(inner.Start)), j, q(string(k2)), q(m.Keys[fi+j]))
+					}
+					j++
+					return j < 5
+				})
+				if verr != nil {
+					return false
+				}
+				want := ti - fi
+				if want > 5 {
+					want = 5
+				}
+				if j != want {
+					verr = viol("nested-scan", "inner scan yielded %d entries, want %d", j, want)
+					return false
+				}
+				if string(held) != m.Keys[fo+n] {
+					verr = viol("nested-scan", "the key handed to the outer callback (%s) was overwritten by a scan started inside the callback", q(m.Keys[fo+n]))
+					return false
+				}
+				n++
+				return true
+			})
+			if verr != nil {
+				return verr
+			}
+			if n != to-fo {
+				return viol("nested-scan", "outer scan (start %s) yielded %d entries, want %d, when another scan runs inside its callback", q(string(outer.Start)), n, to-fo)
+			}
+			return nil
+		})
+		if err != nil {
+			return err
+		}
 	}
 	s.calls(len(scans))
 	if !complete {
